@@ -42,6 +42,14 @@ db2_dialect = ansi_dialect.copy_as(
 db2_dialect.sets("reserved_keywords").remove("NATURAL")
 db2_dialect.sets("unreserved_keywords").update(UNRESERVED_KEYWORDS)
 
+# Keywords which grammar elements of this dialect (including inherited
+# ones) refer to, but which are in neither keyword set.
+db2_dialect.sets("unreserved_keywords").update(
+    [
+        "INVALID",
+    ]
+)
+
 
 db2_dialect.replace(
     # Db2 allows # in field names, and doesn't use it as a comment
